@@ -11,6 +11,11 @@ import (
 var sanitizer = strings.NewReplacer( // TODO
 	"\n", ``,
 	"\t", ``,
+)
+
+// quoter escapes what is special inside an ordinary python string literal
+var quoter = strings.NewReplacer(
+	`\`, `\\`,
 	`'`, `\'`,
 )
 
@@ -27,12 +32,8 @@ func ActionRawValues(currentWord string, meta common.Meta, values common.RawValu
 	for index, val := range values {
 		val.Value = sanitizer.Replace(val.Value)
 
-		if strings.ContainsAny(val.Value, ` ()[]{}*$?\"|<>&;#`+"`") {
-			if strings.Contains(val.Value, `\`) {
-				val.Value = fmt.Sprintf("r'%v'", val.Value) // backslash needs raw string
-			} else {
-				val.Value = fmt.Sprintf("'%v'", val.Value)
-			}
+		if strings.ContainsAny(val.Value, ` ()[]{}*$?\"'|<>&;#`+"`") {
+			val.Value = fmt.Sprintf("'%v'", quoter.Replace(val.Value))
 		}
 
 		if !meta.Nospace.Matches(val.Value) {
